@@ -117,6 +117,11 @@ def fea(draw):
                     body = [m, body[0]] if draw(st.booleans()) else [body[0], m, body[1]]
                 else:
                     body = [m]
+            if m is not None and draw(st.integers(0, 5)) == 0:
+                # the marker text inside a named lookup nested in the feature: only a direct child of the feature block is an insertion marker
+                body = ["lookup user_%s {" % bname, "    " + m] + ["    " + r for r in rule] + ["} user_%s;" % bname]
+                m = None
+                pos = "nested"
             if draw(st.integers(0, 4)) == 0:
                 body = ["# a comment"] + body
             out.append("feature %s {\n    %s\n} %s;" % (bname, "\n    ".join(body), bname))
@@ -322,6 +327,18 @@ def run_case(case, ctx):
             if nb and na:
                 ctx.label("marker-in-the-middle")
                 nontriv = True
+            if generated and nb == 0 and na == 0:
+                # a block holding nothing but the marker is replaced where it stands: the generated feature statements come after every user statement
+                # that precedes the block in the feature file and before every one that follows it
+                i0 = next((i for i, x in enumerate(user) if x[0] and x[0][0] == ("FeatureBlock", tag) and x[1] == "Comment"), None)
+                if i0 is not None:
+                    upos = {id(x): j for x, j in positions}
+                    before_u = [upos[id(x)] for x in user[:i0] if id(x) in upos]
+                    after_u = [upos[id(x)] for x in user[i0 + 1:] if id(x) in upos]
+                    if (before_u and max(before_u) > min(generated)) or (after_u and min(after_u) < max(generated)):
+                        raise Violation("the feature generated for a marker-only block is not placed where the block stood", feature=tag,
+                                        statements_before=len(before_u), statements_after=len(after_u), writers=mode)
+                    ctx.label("marker-only-block-position-checked")
     # 4b. abvm and blwm are generated independently of each other: writing one by hand leaves the other as it is generated without the hand-written block
     sibling = {"abvm": "blwm", "blwm": "abvm"}
     todo_tags = [sibling[t_] for t_ in case["blocks"] if t_ in sibling and sibling[t_] not in case["blocks"]]
